@@ -194,12 +194,19 @@ func (env *Env) tr(e Expr) TV {
 	case *EIdent:
 		return env.ident(e.Name)
 	case *EUnary:
+		if e.Op == "&" {
+			if sel, ok := e.X.(*ESel); ok {
+				return env.addrOfField(sel)
+			}
+		}
 		x := env.tr(e.X)
 		switch e.Op {
 		case "!":
 			return TV{"(not " + x.T + ")", "Bool", types.Typ[types.Bool]}
 		case "-":
 			return TV{"(- " + x.T + ")", x.Sort, x.Go}
+		case "&":
+			return env.fail("& needs a field selection operand")
 		case "*":
 			if pt, ok := goUnder(x.Go).(*types.Pointer); ok {
 				return TV{fc.loadHeapValue(env.cur, x.T, pt.Elem()), P.SortOf(pt.Elem()), pt.Elem()}
@@ -640,4 +647,38 @@ func (e *Engine) findGlobal(o *types.Var) *ssa.Global {
 		}
 	}
 	return nil
+}
+
+// addrOfField: &x.f.g — the deterministic address term of a field reached from a pointer.
+func (env *Env) addrOfField(e *ESel) TV {
+	fc := env.fc
+	var base TV
+	if inner, ok := e.X.(*ESel); ok {
+		// nested: is the inner selection a pointer-valued field (then load it) or an embedded struct (then take its address)?
+		iv := env.tr(inner)
+		if _, isPtr := goUnder(iv.Go).(*types.Pointer); isPtr {
+			base = iv
+		} else {
+			a := env.addrOfField(inner)
+			base = TV{a.T, "Int", types.NewPointer(iv.Go)}
+		}
+	} else {
+		base = env.tr(e.X)
+	}
+	pt, ok := goUnder(base.Go).(*types.Pointer)
+	if !ok {
+		return env.fail("& of a field of a non-pointer")
+	}
+	_, path := lookupFieldAnyPkg(pt.Elem(), e.Name)
+	if len(path) == 0 {
+		return env.fail("no field %s", e.Name)
+	}
+	T := pt.Elem()
+	t := base.T
+	for _, fi := range path {
+		st := T.Underlying().(*types.Struct)
+		t = fc.fieldAddrTerm(fc.P.SortOf(T), fi, t)
+		T = st.Field(fi).Type()
+	}
+	return TV{t, "Int", types.NewPointer(T)}
 }
